@@ -565,11 +565,11 @@ func dartOutline(t *rapid.T, label string) outline {
 func genOutline(t *rapid.T, label, family string) outline {
 	switch family {
 	case "convex":
-		return starOutline(t, label, rapid.IntRange(3, 14).Draw(t, label+".n"), 1)
+		return starOutline(t, label, manyOr(t, label, rapid.IntRange(3, 14).Draw(t, label+".n")), 1)
 	case "star":
-		return starOutline(t, label, rapid.IntRange(4, 18).Draw(t, label+".n"), 0)
+		return starOutline(t, label, manyOr(t, label, rapid.IntRange(4, 18).Draw(t, label+".n")), 0)
 	case "zigzag":
-		return starOutline(t, label, rapid.IntRange(6, 20).Draw(t, label+".n"), 2)
+		return starOutline(t, label, manyOr(t, label, rapid.IntRange(6, 20).Draw(t, label+".n")), 2)
 	case "monotone":
 		return monotoneOutline(t, label)
 	case "comb":
@@ -629,4 +629,13 @@ func genRegion(t *rapid.T, label string) shape {
 		s = shape{Family: "fallback", Loops: [][]kit.V2{fallbackSquare}}
 	}
 	return s
+}
+
+// manyOr: one outline in sixteen has many vertices (polygons of a few hundred vertices are ordinary input; code paths
+// chosen by size must agree with the small ones).
+func manyOr(t *rapid.T, label string, n int) int {
+	if rapid.IntRange(0, 15).Draw(t, label+".many") == 0 {
+		return 2 * rapid.IntRange(20, 80).Draw(t, label+".nmany")
+	}
+	return n
 }
